@@ -158,10 +158,12 @@ def run_workload(res, prop, seed, tier, tag):
             dg = build_dg(res, shapes, tag='dg_' + family, setters=True)     # setter attributes are legal without the feature and must not change diff/apply
             if not dg:
                 return None
-            rc, impl = run_lines([dg, casefile], timeout=3000)
-            if rc != 0:
+            rc, impl, crashed = run_cases(dg, casefile, timeout=3000)
+            if rc != 0 and not crashed:
                 res.add_broken('correspondence', 'generated harness run', f"rc={rc} {' '.join(impl[-2:])[:300]}")
                 return None
+            # a case the PROCESS died on (abort / stack overflow): no observation exists for it; every derive-level property fails on it
+            impl += [f"ORACLE-FAIL {cl.split()[1]} the process aborts while diff/apply run on this case: {err[:200]}" for cl, err in crashed]
             open(os.path.join(cdir, 'impl.txt'), 'w').write('\n'.join(impl) + '\n')
             # keep only the three most recent cache entries
             ents = sorted((os.path.getmtime(os.path.join(WORK, 'derive_cache', d)), d) for d in os.listdir(os.path.join(WORK, 'derive_cache')))
@@ -192,8 +194,13 @@ def evaluate(res, prop, w, with_model=True):
             msgs = [f"oracle could not read the observations ({e!r})"]
         for msg in msgs:
             fails.append({'group': 'derive', 'case': shape_line[m[0]] + '\n' + case_line[cid], 'what': f"ORACLE-FAIL {cid} {msg}", 'signature': msg})
+    for h in w['hfails']:
+        if 'the process aborts' in h:
+            cid = h.split()[1]
+            fails.append({'group': 'derive', 'case': shape_line[meta[cid][0]] + '\n' + case_line[cid], 'what': h, 'signature': 'process abort'})
     if prop == 'C06':
         for h in w['hfails']:
+            if 'the process aborts' in h: continue
             cid = h.split()[1]
             fails.append({'group': 'derive', 'case': shape_line[meta[cid][0]] + '\n' + case_line[cid], 'what': h, 'signature': h})
     dis = []
